@@ -547,6 +547,9 @@ pub fn g_trivia(min1: bool) -> BS<String> {
             1 => Just('\u{c}'),
             1 => pick("()[]\"#;'|\\"),
             1 => unicode_alpha(),
+            // every control character but the line feed, DEL, and the characters
+            // other tools take for line ends or for nothing at all
+            1 => prop_oneof![(0u32..0x20).prop_filter_map("lf", |u| if u == 0x0a { None } else { char::from_u32(u) }), Just('\u{7f}'), Just('\u{0}'), Just('\u{85}'), Just('\u{2028}'), Just('\u{feff}'), Just('\u{1a}')],
         ],
         0..12,
     )
